@@ -319,3 +319,192 @@ Section HoarePrims.
     apply hoare_ret; auto.
   Qed.
 End HoarePrims.
+
+Section HoareMore.
+  Variable ct : ctable.
+  Notation hoare := (hoare ct).
+  Notation pres := (pres ct).
+
+  Definition has_shape (n : nat) (l : loc) (h : heap_t) : Prop :=
+    exists o0, nth_error h l = Some o0 /\ shape o0 = n.
+
+  Lemma has_shape_stable n l : stable (has_shape n l).
+  Proof. intros h h' E [o0 [N S]]. destruct (E _ _ N) as [o' [N' S']]. exists o'. split; auto. congruence. Qed.
+
+  Lemma obj_ok_stable o : stable (fun h => obj_ok ct h o).
+  Proof. intros h h' E H. eapply obj_ok_ext; eauto. Qed.
+
+  Lemma hoare_read_ok l :
+    hoare TT (read l) (fun o h => has_shape (shape o) l h /\ obj_ok ct h o).
+  Proof.
+    intros s _ T. unfold read. destruct (nth_error (heap s) l) as [o|] eqn:N; simpl; auto using ext_refl.
+    split; [apply ext_refl|]. split; auto. split; [exists o; auto|].
+    destruct o; simpl; auto. eapply T; eauto.
+  Qed.
+
+  Lemma hoare_write_ok l o :
+    hoare (fun h => has_shape (shape o) l h /\ obj_ok ct h o) (write l o) (fun _ _ => True).
+  Proof.
+    eapply hoare_conseq; [apply hoare_write| |auto].
+    intros h [[o0 [N S]] Ok]. exists o0. auto.
+  Qed.
+
+  Lemma pres_pre {A} (P : heap_t -> Prop) (m : M A) Q : hoare TT m Q -> hoare P m Q.
+  Proof. intro H. eapply hoare_conseq; eauto. intros; exact I. Qed.
+
+  Lemma pres_post {A} (P : heap_t -> Prop) (m : M A) Q : hoare P m Q -> hoare P m (fun _ _ => True).
+  Proof. intro H. eapply hoare_conseq; eauto. Qed.
+
+  Lemma pres_bind {A B} (m : M A) (k : A -> M B) : pres m -> (forall a, pres (k a)) -> pres (bind m k).
+  Proof. intros Hm Hk. eapply hoare_bind; [exact Hm|]. intro a. apply Hk. Qed.
+
+  Lemma pres_ret {A} (a : A) : pres (ret a).
+  Proof. apply hoare_ret; auto. Qed.
+  Lemma pres_fail {A} e : pres (@fail A e).
+  Proof. apply hoare_fail. Qed.
+
+  Lemma pres_read l : pres (read l).
+  Proof. eapply pres_post. apply hoare_read_ok. Qed.
+  Lemma pres_tick : pres tick.
+  Proof. eapply pres_post. apply hoare_tick. intros h h' _ H; exact H. Qed.
+  Lemma pres_get_heap : pres get_heap.
+  Proof. eapply pres_post. apply hoare_get_heap. Qed.
+
+  Lemma pres_alloc o : (forall c d, o = OInst c d -> d = []) -> pres (alloc o).
+  Proof.
+    intro H. eapply hoare_conseq; [apply hoare_alloc| |auto].
+    intros h _. destruct o; simpl; auto. rewrite (H c d eq_refl). intros k a v sp _ [].
+  Qed.
+
+  Lemma pres_catch {A} (m k : M A) hd : pres m -> pres k -> pres (catch m hd k).
+  Proof. intros. apply hoare_catch; auto. Qed.
+  Lemma pres_finally {A} (m : M A) c : pres m -> pres c -> pres (finally_ m c).
+  Proof. intros. eapply hoare_finally; eauto. Qed.
+  Lemma pres_foldM {A B} (f : B -> A -> M B) l acc : (forall acc x, pres (f acc x)) -> pres (foldM f l acc).
+  Proof. intro H. apply (hoare_foldM ct f (fun _ _ => True)). exact H. Qed.
+End HoareMore.
+
+Create HintDb pr.
+#[export] Hint Resolve pres_ret pres_fail pres_read pres_tick pres_get_heap : pr.
+Ltac pprim := eauto with pr.
+Ltac pstep :=
+  lazymatch goal with
+  | |- pres _ (ret _) => apply pres_ret
+  | |- pres _ (fail _) => apply pres_fail
+  | |- pres _ (bind _ _) => apply pres_bind; [ solve [pprim] | intros ]
+  | |- pres _ (let _ := _ in _) => cbv zeta
+  | |- pres _ (if ?c then _ else _) => destruct c eqn:?
+  | |- pres _ (match ?x with _ => _ end) => destruct x eqn:?
+  end.
+Ltac pgo := repeat pstep.
+
+(* ------------------------------------------------------------------ *)
+(** * deepcopy: the copy of a value has the class of the original *)
+Definition lsame (l l' : loc) (h : heap_t) : Prop :=
+  l < length h /\ l' < length h /\ cls_at h l' = cls_at h l.
+
+Lemma lsame_stable l l' : stable (fun h => lsame l l' h).
+Proof.
+  intros h h' E [L1 [L2 C]]. pose proof (ext_length _ _ E). unfold lsame.
+  rewrite !(ext_cls h h') by auto. repeat split; auto; lia.
+Qed.
+
+Lemma has_shape_cls n l h : has_shape n l h ->
+  l < length h /\ cls_at h l = match n with S (S (S c)) => Some c | _ => None end.
+Proof.
+  intros [o [N S]]. split; [apply nth_error_Some; congruence|]. unfold cls_at. rewrite N.
+  destruct o; simpl in S; subst; auto.
+Qed.
+
+Lemma lsame_of_shapes n l l' h : has_shape n l h -> has_shape n l' h -> lsame l l' h.
+Proof.
+  intros H1 H2. apply has_shape_cls in H1, H2. destruct H1 as [L1 C1], H2 as [L2 C2].
+  unfold lsame. rewrite C1, C2. auto.
+Qed.
+
+Lemma lsame_refl n l h : has_shape n l h -> lsame l l h.
+Proof. intro H. eapply lsame_of_shapes; eauto. Qed.
+
+Definition rsame (v r : val) (h : heap_t) : Prop :=
+  match v with VRef l => exists l', r = VRef l' /\ lsame l l' h | _ => r = v end.
+
+Lemma rsame_stable v r : stable (fun h => rsame v r h).
+Proof.
+  intros h h' E H. destruct v; simpl in *; auto. destruct H as [l' [-> L]].
+  exists l'. split; auto. eapply lsame_stable; eauto.
+Qed.
+
+Lemma rsame_check ct h v r t :
+  simple t = true -> rsame v r h ->
+  check_type FUEL ct h v t = true -> check_type FUEL ct h r t = true.
+Proof.
+  intros St R C. rewrite <- C. apply check_simple_same; auto.
+  destruct v; simpl in *; auto. destruct R as [l' [-> [_ [_ E]]]]. eauto.
+Qed.
+
+Definition memo_same (memo : memo_t) (h : heap_t) : Prop :=
+  forall l l', In (l, l') memo -> lsame l l' h.
+
+Lemma memo_same_stable memo : stable (memo_same memo).
+Proof. intros h h' E H l l' Hin. eapply lsame_stable; eauto. Qed.
+
+Lemma memo_same_assoc memo l l' h : memo_same memo h -> assoc l memo = Some l' -> lsame l l' h.
+Proof.
+  unfold assoc. intros H E.
+  destruct (find (fun p : nat * loc => fst p =? l) memo) as [[x y]|] eqn:F; simpl in E; [|discriminate].
+  inversion E; subst. apply find_some in F. destruct F as [F Fe]. simpl in Fe.
+  apply Nat.eqb_eq in Fe. subst. auto.
+Qed.
+
+Lemma memo_same_cons memo l l' h : memo_same memo h -> lsame l l' h -> memo_same ((l, l') :: memo) h.
+Proof. intros H L x y [E|Hin]; [inversion E; subst; auto|auto]. Qed.
+
+Section HoareIn.
+  Variable ct : ctable.
+  Lemma hoare_foldM_in {A B} (f : B -> A -> M B) (Inv : B -> heap_t -> Prop) l :
+    (forall acc x, In x l -> hoare ct (Inv acc) (f acc x) Inv) ->
+    forall acc, hoare ct (Inv acc) (foldM f l acc) Inv.
+  Proof.
+    induction l as [|x l IH]; intros H acc; simpl.
+    - apply hoare_ret; auto.
+    - eapply hoare_bind; [apply H; simpl; auto|]. intro acc'. apply IH. intros; apply H; simpl; auto.
+  Qed.
+End HoareIn.
+
+Section HoareKeep.
+  Variable ct : ctable.
+  Lemma stable_and F G : stable F -> stable G -> stable (fun h => F h /\ G h).
+  Proof. intros SF SG h h' E [HF HG]. split; eauto. Qed.
+  Lemma stable_TT : stable TT.
+  Proof. intros h h' _ _. exact I. Qed.
+
+  Lemma hoare_pre {A} (P P' : heap_t -> Prop) (m : M A) Q :
+    (forall h, P' h -> P h) -> hoare ct P m Q -> hoare ct P' m Q.
+  Proof. intros HP H. eapply hoare_conseq; eauto. Qed.
+
+  Lemma hoare_post {A} (P : heap_t -> Prop) (m : M A) (Q Q' : A -> heap_t -> Prop) :
+    (forall a h, Q a h -> Q' a h) -> hoare ct P m Q -> hoare ct P m Q'.
+  Proof. intros HQ H. eapply hoare_conseq; eauto. Qed.
+
+  (* run m (which needs nothing), keep the stable fact F for the continuation *)
+  Lemma hoare_bind_keep {A B} F (m : M A) (k : A -> M B) Q R :
+    stable F -> hoare ct TT m Q ->
+    (forall a, hoare ct (fun h => Q a h /\ F h) (k a) R) ->
+    hoare ct F (bind m k) R.
+  Proof.
+    intros St Hm Hk. eapply hoare_bind; [|exact Hk].
+    eapply hoare_pre; [|apply (hoare_keep ct F TT m Q St Hm)]. intros h HF. split; [exact I|exact HF].
+  Qed.
+
+  Lemma pres_apply_fn f v : pres ct (apply_fn f v).
+  Proof.
+    unfold apply_fn. apply pres_bind; [apply pres_tick|]. intros _.
+    destruct f; pgo; try (apply pres_bind; [apply pres_alloc; intros; discriminate|intros; apply pres_ret]).
+  Qed.
+
+  Lemma pres_check_typeM v t : pres ct (check_typeM ct v t).
+  Proof. unfold check_typeM. pgo. Qed.
+  Lemma pres_val_eqM x y : pres ct (val_eqM ct x y).
+  Proof. unfold val_eqM. pgo. Qed.
+End HoareKeep.
+#[export] Hint Resolve pres_apply_fn pres_check_typeM pres_val_eqM : pr.
